@@ -5,11 +5,28 @@ Plan plan_C09(Rng& r, const std::string& tier);
 Plan plan_C10(Rng& r, const std::string& tier);
 Plan plan_C07(Rng& r, const std::string& tier);
 Plan plan_C08(Rng& r, const std::string& tier);
+Plan plan_C17(Rng& r, const std::string& tier);
+Plan plan_C18(Rng& r, const std::string& tier);
+Plan plan_C13(Rng& r, const std::string& tier);
+Plan plan_C19(Rng& r, const std::string& tier);
 bool generate_plan_ext(const std::string& profile, const std::string& tier, Rng& r, Plan& p) {
 	if (profile == "C09") { p = plan_C09(r, tier); return true; }
 	if (profile == "C10") { p = plan_C10(r, tier); return true; }
 	if (profile == "C07") { p = plan_C07(r, tier); return true; }
 	if (profile == "C08") { p = plan_C08(r, tier); return true; }
+	if (profile == "C17") { p = plan_C17(r, tier); return true; }
+	if (profile == "C18") { p = plan_C18(r, tier); return true; }
+	if (profile == "C13") { p = plan_C13(r, tier); return true; }
+	if (profile == "C19") { p = plan_C19(r, tier); return true; }
+	if (profile == "C20") {
+		// the union of all other workloads, judged only by the memory / UB monitors (sanitizers on the
+		// poisoned arena, noise differential, crash and hang detection)
+		static const char* const all[] = {"C01", "C02", "C03", "C04", "C05", "C06", "C07", "C08", "C09", "C10", "C11", "C12", "C13", "C14", "C15", "C17", "C18", "C19"};
+		std::string pick = all[r.below(sizeof all / sizeof all[0])];
+		Rng r2(r.next());
+		p = generate_plan(pick, tier, r2.next());
+		return true;
+	}
 	return false;
 }
 }
